@@ -367,24 +367,34 @@ def scanKey (q : Char) : List Char → Option (List Char × List Char)
        else (scanKey q rest).map fun (raw, r) => (c :: d :: raw, r))
     else (scanKey q (d :: rest)).map fun (raw, r) => (c :: raw, r)
 
-/-- the `lookup` group at the head of `s` (no dot consumed yet in this match when `afterDot = false`) -/
+/-- the `lookup` group at the head of `s` (`afterDot`: this match has consumed its optional dot,
+so the look-behind `(?<!\.)` of the two item alternatives fails) -/
 def lexLookup (afterDot : Bool) (s : List Char) : Option (Body × List Char) :=
   match s with
-  | '[' :: '"' :: rest =>
-    if afterDot then none else (scanKey '"' rest).map fun (raw, r) => (.key .dq raw, r)
-  | '[' :: '\'' :: rest =>
-    if afterDot then none else (scanKey '\'' rest).map fun (raw, r) => (.key .sq raw, r)
-  | _ =>
-    match takeWord s with
-    | ([], _) => none
-    | (w, r) => some (.word w, r)
+  | [] => none
+  | c :: rest =>
+    if c == '[' then
+      if afterDot then none
+      else match rest with
+        | [] => none
+        | q :: rest' =>
+          if q == '"' then (scanKey '"' rest').map fun (raw, r) => (.key .dq raw, r)
+          else if q == '\'' then (scanKey '\'' rest').map fun (raw, r) => (.key .sq raw, r)
+          else none
+    else
+      match takeWord (c :: rest) with
+      | ([], _) => none
+      | (w, r) => some (.word w, r)
 
-/-- one match of `ATTR_PARSER` anchored at the head of `s`; `first` = at offset 0 -/
+/-- one match of `ATTR_PARSER` anchored at the head of `s`; `first` = at offset 0
+(where the look-behind `(?<!^)` forbids the dot) -/
 def lexTok (first : Bool) (s : List Char) : Option (Tok × List Char) :=
   match s with
-  | '.' :: rest =>
-    if first then none else (lexLookup true rest).map fun (b, r) => (⟨true, b⟩, r)
-  | _ => (lexLookup false s).map fun (b, r) => (⟨false, b⟩, r)
+  | [] => none
+  | c :: rest =>
+    if c == '.' then
+      if first then none else (lexLookup true rest).map fun (b, r) => (⟨true, b⟩, r)
+    else (lexLookup false (c :: rest)).map fun (b, r) => (⟨false, b⟩, r)
 
 /-- contiguous matches covering the whole string (`finditer` + join check); fuel ≥ length + 1 -/
 def lexAll : Nat → Bool → List Char → Option (List Tok)
@@ -424,10 +434,11 @@ def renderToks : List Tok → List Char
 `none` = an escape outside the modelled subset -/
 def decodeKey : List Char → Option (List Char)
   | [] => some []
-  | '\\' :: d :: rest =>
-    if d == '\\' || d == '\'' || d == '"' then (decodeKey rest).map (d :: ·) else none
-  | ['\\'] => none
-  | c :: rest => (decodeKey rest).map (c :: ·)
+  | [c] => if c == '\\' then none else some [c]
+  | c :: d :: rest =>
+    if c == '\\' then
+      (if d == '\\' || d == '\'' || d == '"' then (decodeKey rest).map (d :: ·) else none)
+    else (decodeKey (d :: rest)).map (c :: ·)
 
 def Tok.seg (t : Tok) : Option Seg :=
   match t.body with
